@@ -382,9 +382,16 @@ sx_parse_(const char *s, const size_t n, const size_t i)
     if (rv.status == SXS_FOUND_LIST) {
         return sx_parse_list(s, n, rv.position);
     }
-    if (i >= n && rv.node == NULL) {
+    if (rv.status == SXS_SUCCESS && rv.node == NULL) {
+        /* Nothing but whitespace: There is no expression here. */
         rv.status = SXS_UNEXPECTED_END;
         return rv;
+    }
+    if (result_is_empty_listp(&rv)) {
+        /* A closing parenthesis that does not close anything. */
+        sx_destroy(&rv.node);
+        rv.status = SXS_UNKNOWN_INPUT;
+        rv.position--;
     }
     return rv;
 }
